@@ -352,7 +352,7 @@ def run_scenario(scn, workdir):
     nontrivial = bool(inter_task_switches > 0 or any(v < nmax for v in kn.values()) or pert["format"] != "pin")
     out = {
         "status": "ok",
-        "digest": digest([scn["data"], cfg, pert["format"], pert.get("row_group"), kn, pert["max_workers"],
+        "digest": digest([scn["data"], scn["cfg"], scn.get("fasta_seed"), pert["format"], pert.get("row_group"), kn, pert["max_workers"],
                           world.sched_digest(sch), pert.get("glob_seed")]),
         "nontrivial": nontrivial,
         "probes": probes,
